@@ -549,6 +549,17 @@ func (p *printer) printCall(prog *Program, pl *Pipeline, c *Call, indent string)
 	if kwVolatile {
 		p.b.WriteString("volatile ")
 	}
+	odds := 6
+	if len(c.Bindings) == 0 {
+		odds = 2 // (rare, and there is no binding the comment could go with)
+	}
+	if p.lay != nil && p.lay.Dangling && p.pick(odds) == 0 {
+		// a comment between the keyword and its operand (counted with the
+		// dangling ones: it does not precede an element of its scope)
+		p.nc++
+		p.nd++
+		fmt.Fprintf(&p.b, "\n%s# k%d after the keyword\n%s", indent, p.nc, indent)
+	}
 	p.b.WriteString(c.Callee)
 	if c.Id != c.Callee {
 		fmt.Fprintf(&p.b, " as %s", c.Id)
